@@ -493,16 +493,27 @@ CHECKS = {
 
 
 def replay(prop, path, seed):
-    """Re-runs the scenario of a replay file and validates it again."""
+    """Re-runs the scenario of a replay file and validates it again (same seed, same harness arguments)."""
     with open(path) as f:
         obj = json.load(f)
+    os.environ["VERIF_SEED"] = str(obj.get("seed", seed))
     run = vlib.Run(prop, "quick", obj.get("seed", seed))
     kind = obj.get("kind")
     if kind == "model":
         run.model(obj["cfg"], obj["module"])
-    elif kind in ("trace", "crash"):
-        run.trace("replay", obj["backend"], obj["args"])
+    elif kind in ("trace", "crash") and obj.get("args"):
+        args = obj["args"]
+        if args[0] == "prims":
+            run.trace("replay", obj["backend"], args, module="HbGroupTrace.tla", cfg="HbGroupTrace.cfg")
+        elif args[0] == "split":
+            run.trace("replay", obj["backend"], args, module="HbSplitTrace.tla", cfg="HbSplitTrace.cfg")
+        elif args[0] == "layout":
+            return CHECKS[prop](run)
+        elif any("tablezst" in a for a in args):
+            run.trace("replay", obj["backend"], args, module="HbZstTrace.tla", cfg="HbZstTrace.cfg")
+        else:
+            run.trace("replay", obj["backend"], args)
     else:
-        print("unknown replay kind")
-        return 2
+        # layout records, cross-build differences, symbolic obligations: re-run the whole check with the recorded seed
+        return CHECKS[prop](run)
     return run.finish()
